@@ -184,3 +184,18 @@ Lemma fetch_optype_known : forall info_op loader_op, info_op <> OP_UNKNOWN -> fe
 Proof. intros i l H. unfold fetch_optype. apply N.eqb_neq in H. rewrite H. reflexivity. Qed.
 Lemma fetch_optype_unknown : forall loader_op, fetch_optype OP_UNKNOWN loader_op = loader_op.
 Proof. reflexivity. Qed.
+
+(* the rule applied to a fetch is that of the fetch's own operation type; the request's type is
+   used only when the fetch has none *)
+Lemma fetch_gate_fetch_type_lemma : forall p d ft loader_op, In ft (pl_fetches p) ->
+  is_fetch_authorized true loader_op ft (seed d (collect_coordinates p))
+  = negb (must_not_send (if ft_op ft =? OP_UNKNOWN then loader_op else ft_op ft) (decided_flags d (ft_roots ft))).
+Proof.
+  intros p d ft loader_op Hft. unfold is_fetch_authorized. rewrite (fetch_gate_plan_lemma p d ft _ Hft).
+  unfold fetch_optype. reflexivity.
+Qed.
+Lemma fetch_gate_request_type_irrelevant : forall ft k l1 l2, ft_op ft <> OP_UNKNOWN ->
+  is_fetch_authorized true l1 ft k = is_fetch_authorized true l2 ft k.
+Proof.
+  intros ft k l1 l2 H. unfold is_fetch_authorized. rewrite !(fetch_optype_known _ _ H). reflexivity.
+Qed.
